@@ -315,7 +315,7 @@ func genRD(c *ctx) {
 			pm := w.plan(sm, vm, false)
 			for _, elem := range []sx{tString, T("struct", hs(""), hs(""), T("field", hs("A"), A("true"), hs("a"), hs(""), tInt(64)), T("field", hs("B"), A("true"), hs("b"), hs(""), tInt(64)), T("field", hs("C"), A("true"), hs("c"), hs(""), tInt(64)))} {
 				tym := T("struct", hs("Mn"), hs(""), T("field", hs("M"), A("true"), hs("m"), hs(""), T("map", tString, elem)))
-				c.emit(T("cread", tym, schemaSx(sm.toSchema()), H(encodeSpec(pm, sm, vm)), sm.sx(), vm.sx(), pm.sx(), I(0)))
+				c.emit(T("cread-recycled", tym, schemaSx(sm.toSchema()), H(encodeSpec(pm, sm, vm)), sm.sx(), vm.sx(), pm.sx(), I(0)))
 			}
 		}
 		fx := func(name string) *asch { return &asch{kind: "fixed", n: 40, fname: name} }
